@@ -19,7 +19,8 @@ for wid in ids:
             continue
         # 1. confirm (results of an earlier confirmation run are reused)
         prev = open('/tmp/confirm_all.log').read() if os.path.exists('/tmp/confirm_all.log') else ''
-        pm = re.search(r'== ' + re.escape(wt) + r' #' + str(n) + r' .*?\n((?:.*\n)*?)RESULT (.*)', prev)
+        pms = list(re.finditer(r'== ' + re.escape(wt) + r' #' + str(n) + r' .*?\n((?:.*\n)*?)RESULT (.*)', prev))
+        pm = pms[-1] if pms else None  # the latest confirmation run counts
         if pm:
             class R: pass
             r = R(); r.stdout = pm.group(1) + 'RESULT ' + pm.group(2)
